@@ -16,18 +16,18 @@ fn groups_for(prop: &str, ctx: &Ctx) -> Vec<Box<dyn Group>> {
         "C12" => vec![Box::new(c12::Run), Box::new(c12::Serve), Box::new(c12::Hosts)],
         "C18" => vec![Box::new(c18::Write), Box::new(c18::Replace), Box::new(c18::ReplaceSeq), Box::new(c18::FileRead::new()), Box::new(c18::ReadAll), Box::new(c18::Adaptor)],
         "C16" => vec![Box::new(c16::Ops), Box::new(c16::Present), Box::new(c16::Trace), Box::new(c16::EmptyArgs)],
-        "C15" => vec![Box::new(c15::Route), Box::new(c15::Isolation), Box::new(c15::Conn), Box::new(c20::HostsTls::new())],
+        "C15" => vec![Box::new(c15::Route), Box::new(c15::Isolation), Box::new(c15::Conn), Box::new(c20::HostsTls::new()), Box::new(c08::BodyAcct)],
         "C14" => vec![Box::new(c14::Rules), Box::new(c14::NonceRewrite::new()), Box::new(c14::CspHeader), Box::new(c14::Chain)],
         "C01" => vec![Box::new(c01::PathOk), Box::new(c01::San), Box::new(c01::Read::new(ctx))],
-        "C07" => vec![Box::new(c07::Request1)],
+        "C07" => vec![Box::new(c07::Request1), Box::new(c08::BodyAcct)],
         "C06" => vec![Box::new(c06::ListHeader), Box::new(c06::Negotiation::new()), Box::new(c06::Memo::new())],
         "C03" => vec![Box::new(c03::History), Box::new(c03::Keys), Box::new(c13::Decisions), Box::new(c06::Negotiation::new())],
         "C04" => vec![Box::new(c03::History), Box::new(c04::CacheCtl)],
         "C05" => vec![Box::new(c05::Serve), Box::new(c05::Overlap)],
         "C13" => vec![Box::new(c13::Decisions)],
         "C17" => vec![Box::new(c17::Hist::new(ctx))],
-        "C08" => vec![Box::new(c08::Framing), Box::new(c08::Huge)],
-        "C20" => vec![Box::new(c20::Pair::new()), Box::new(c20::MuxStreams::new()), Box::new(c20::HostsTls::new())],
+        "C08" => vec![Box::new(c08::Framing), Box::new(c08::Huge), Box::new(c08::BodyAcct)],
+        "C20" => vec![Box::new(c20::Pair::new()), Box::new(c20::MuxStreams::new()), Box::new(c20::HostsTls::new()), Box::new(c08::BodyAcct)],
         "C10" => vec![Box::new(c10::Nested), Box::new(c10::Ctl)],
         "C11" => vec![Box::new(c11::Chain), Box::new(c10::Nested), Box::new(c10::Ctl)],
         "C02" => vec![Box::new(c02::Headers), Box::new(c02::Head), Box::new(c02::Stack), Box::new(c02::Crawl), Box::new(c02::QueryStr), Box::new(c02::QueryIter), Box::new(c16::EmptyArgs), Box::new(c09::Reply), Box::new(c15::Route),
